@@ -20,6 +20,7 @@ EXPLANATION = (
     "among the remaining names, surplus and unknown arguments raise ValueError; (R5) a captured class survives as a Constant callee exactly "
     "when it is a dataclass or has _fields; (R6) comprehension targets are protected from capture rewriting for all four comprehension forms."
     " (R4, as of D48) a keyword that names a field already filled positionally, and a `*` argument, raise ValueError."
+    " (R9, as of D56) the number of positional arguments is held against the number of parameters that can be given positionally: the lowering reads the kinds of the signature's parameters and a refusal of the binder compares the count with len(args)."
 )
 NOT_DECIDED = "equality of the sequence computed by the lowered chain and by Python's comprehension on data."
 
